@@ -11,6 +11,7 @@ Three differential monitors (deciding step: comparison of the two engines' repor
 """
 import copy
 import math
+import sys
 import os
 import shutil
 import tempfile
@@ -157,6 +158,29 @@ def epanet_clean(tr):
     return True
 
 
+def epanet_balanced(spec, res):
+    """The reference must itself be a solution: at every junction and step EPANET's reported link flows balance its reported
+    demand (EPANET has been seen to return, without any warning, flows that miss the balance by litres per second)."""
+    import numpy as np
+    Q, D = res.link['flowrate'], res.node['demand']
+    qmax = max(1e-4, float(np.abs(Q.values).max()))
+    net = {j['name']: np.zeros(len(Q.index)) for j in spec['junctions']}
+    tot = {j['name']: np.zeros(len(Q.index)) for j in spec['junctions']}
+    for l_ in spec['pipes'] + spec['pumps'] + spec['valves']:
+        q = Q[l_['name']].values
+        for end, sgn in ((l_['end'], 1.0), (l_['start'], -1.0)):
+            if end in net:
+                net[end] = net[end] + sgn * q
+                tot[end] = tot[end] + np.abs(q)
+    for n, v in net.items():
+        live = tot[n] > 1e-9          # a junction cut off from everything keeps its nominal demand in EPANET's tables
+        if live.any() and float(np.abs(v - D[n].values)[live].max()) > 1e-5 + 2e-3 * qmax:
+            if os.environ.get('C03_DEBUG_BAL'):
+                sys.stderr.write('UNBAL %s imbalance %.3g qmax %.3g demand %.3g\n' % (n, float(np.abs(v - D[n].values)[live].max()), qmax, float(np.abs(D[n].values).max())))
+            return False
+    return True
+
+
 def link_closed(res, ln, i):
     return int(res.link['status'][ln].values[i]) == 0
 
@@ -182,6 +206,19 @@ def valve_forced_open(spec, rw, re_, v, k):
            (v['type'] == 'PSV' and float(rw.node['pressure'][v['start']].values[k]) < cur - 0.01)
 
 
+def junc_names_all(spec):
+    return [j['name'] for j in spec['junctions']]
+
+
+def side_without_source(topo, links, rw, v, k):
+    """True when, with the valve itself taken out, the side WNTR's _ValveSourceChecker looks at has no tank or reservoir
+    (PRV: upstream, PSV: downstream, FCV: either) on the link statuses WNTR reports at step k."""
+    closed = set(l2 for l2 in links if l2 != v['name'] and link_closed(rw, l2, k)) | {v['name']}
+    conn = topo.connected_nodes(closed)
+    up, down = v['start'] not in conn, v['end'] not in conn
+    return {'PRV': up, 'PSV': down, 'FCV': up or down}.get(v['type'], False)
+
+
 def run_engines(c, rng):
     limits = c.index % 16 in (6, 14)
     spec = common_spec(rng, c.tier, limits=limits)
@@ -204,6 +241,9 @@ def run_engines(c, rng):
     if not epanet_clean(tr_e):
         c.inconclusive('epanet_warnings')
         return
+    if not epanet_balanced(spec, tr_e.results):
+        c.inconclusive('epanet_solution_does_not_balance')
+        return
     tr_w = simobs.run_wntr(wn, deep=False)
     if not simobs.converged(tr_w):
         c.inconclusive('wntr_not_converged')
@@ -225,6 +265,42 @@ def run_engines(c, rng):
         return
     links = [l['name'] for l in spec['pipes'] + spec['pumps'] + spec['valves']]
     nodes = list(rw.node['head'].columns)
+    # the reference must itself be a solution: an open constant-power pump delivers its power (P = rho g q dh).  EPANET sometimes
+    # parks such a pump at zero flow (status Open, q ~ 1e-18, any head gain): that is no solution of the pump's own law
+    for p in spec['pumps']:
+        if p['type'] != 'POWER':
+            continue
+        for k in range(len(times)):
+            if int(re_.link['status'][p['name']].values[k]) == 0:
+                continue
+            qe = float(re_.link['flowrate'][p['name']].values[k])
+            dh = float(re_.node['head'][p['end']].values[k]) - float(re_.node['head'][p['start']].values[k])
+            if abs(9802.0 * qe * dh - p['power']) > 0.05 * p['power']:
+                c.inconclusive('epanet_power_pump_off_its_power_law')
+                return
+            # dh = P / (rho g q): at small flows the head gain is so steep in q that flows agreeing to their own tolerance
+            # (1e-5 + 1e-3 q) still leave metres of head difference - such operating points decide nothing
+            qa = max(abs(qe), 1e-9)
+            if p['power'] / 9810.0 * (1e-5 / qa ** 2 + 1e-3 / qa) > 0.5:
+                c.inconclusive('power_pump_operating_point_ill_conditioned')
+                return
+    # ... and under pressure-dependent demand every junction's delivered demand lies on the pressure-demand curve at EPANET's own
+    # pressure (EPANET 2.2 has been seen to deliver the full demand at t = 0 to a junction below the required pressure)
+    if o['demand_model'] == 'PDD':
+        pmin_, preq_, ex_ = o['minimum_pressure'], o['required_pressure'], o['pressure_exponent']
+        for jn_ in junc_names_all(spec):
+            jobj = wn.get_node(jn_)
+            for k in range(len(times)):
+                D_ = ref.requested_demand(wn, jobj, times[k])
+                if D_ <= 0:
+                    continue
+                pe_ = float(re_.node['pressure'][jn_].values[k])
+                if pe_ < -100:
+                    continue
+                f_ = 0.0 if pe_ <= pmin_ else (1.0 if pe_ >= preq_ else ((pe_ - pmin_) / (preq_ - pmin_)) ** ex_)
+                if abs(float(re_.node['demand'][jn_].values[k]) - D_ * f_) > 0.03 * D_ + 1e-6:
+                    c.inconclusive('epanet_pdd_solution_off_the_pressure_demand_curve')
+                    return
     # known mechanism (C02 findings): an open pump carrying reverse flow in WNTR
     for p in spec['pumps']:
         if float(rw.link['flowrate'][p['name']].min()) < -1e-6:
@@ -264,7 +340,7 @@ def run_engines(c, rng):
         for ln in links:
             c.count('status_points_compared')
             if link_closed(rw, ln, i) != link_closed(re_, ln, i):
-                if abs(float(rw.link['flowrate'][ln].values[i])) <= 1e-6 and abs(float(re_.link['flowrate'][ln].values[i])) <= 1e-6:
+                if abs(float(rw.link['flowrate'][ln].values[i])) <= 2.83168e-6 and abs(float(re_.link['flowrate'][ln].values[i])) <= 2.83168e-6:     # Qtol, the engines' own status tolerance
                     c.count('immaterial_status_mismatch')     # closed vs open with no flow: the same hydraulic state
                     continue
                 mismatch[ln].append(i)
@@ -303,12 +379,39 @@ def run_engines(c, rng):
                         c.count('bistable_check_valve_steps', len(r_))
                         bistable.append(r_[0])
                         continue
+                # a junction-pressure control whose target changes its own source pressure has two self-consistent states
+                # (e.g. pump closed <-> pressure low <-> 'close below p' holds; pump open <-> pressure high <-> it does not):
+                # if each engine's reported state agrees with the control evaluated on that engine's own pressures, the
+                # control semantics admit both and neither engine is wrong
+                pcs = [cs for cs in spec['controls'] if cs['kind'] == 'cond' and cs['target'] == ln and cs['attr'] == 'status'
+                       and cs['source'].startswith('J') and cs['sattr'] == 'pressure']
+                if len(pcs) == 1 and not [cs for cs in spec['controls'] if cs is not pcs[0] and (cs.get('target') == ln or any(
+                        a_.get('target') == ln for a_ in cs.get('then', []) + cs.get('else', [])))]:
+                    cs = pcs[0]
+
+                    def consistent(res, k):
+                        pv = float(res.node['pressure'][cs['source']].values[k])
+                        holds = pv < cs['threshold'] if cs['op'] in ('<', '<=') else pv > cs['threshold']
+                        return holds == (link_closed(res, ln, k) == (cs['value'] == 'CLOSED'))
+                    if all(consistent(rw, k) and consistent(re_, k) for k in r_):
+                        c.count('bistable_pressure_control_steps', len(r_))
+                        bistable.append(r_[0])
+                        continue
                 persistent[ln] = r_
             else:
                 c.count('near_tie_status_steps')
     if persistent:
         ln, r_ = sorted(persistent.items())[0]
         kind = 'status_timelines_diverge'
+        # a pressure control reading a junction that is cut off from every source: WNTR zeroes such a junction (C09), EPANET lets
+        # it float at a neighbouring head - the two engines legitimately feed different pressures to the control
+        for cs in spec['controls']:
+            if cs['kind'] == 'cond' and cs['target'] == ln and cs['source'].startswith('J'):
+                for k in range(0, r_[0] + 1):
+                    closed_w = set(l2 for l2 in links if link_closed(rw, l2, k))
+                    if cs['source'] not in topo.connected_nodes(closed_w):
+                        c.inconclusive('pressure_control_source_cut_off_from_sources')
+                        return
         # mechanism test: the link is the target of a junction-pressure control whose condition is false on the state WNTR
         # itself reports, yet WNTR shows the commanded status and EPANET does not: the control fired on an intermediate
         # (status-inconsistent) trial solution of that time step and latched
@@ -320,8 +423,8 @@ def run_engines(c, rng):
                 commanded_closed = cs['value'] == 'CLOSED'
                 if not holds and link_closed(rw, ln, k0) == commanded_closed and link_closed(re_, ln, k0) != commanded_closed:
                     kind = 'status_diverges_pressure_control_fired_on_trial_solution'
-        if o['demand_model'] == 'PDD' and any(v['name'] == ln and valve_forced_open(spec, rw, re_, v, k0) for v in spec['valves']):
-            kind = 'engines_differ_valve_forced_open_without_source_pdd'
+        if any(v['name'] == ln and valve_forced_open(spec, rw, re_, v, k0) and side_without_source(topo, links, rw, v, k0) for v in spec['valves']):
+            kind = 'engines_differ_valve_forced_open_without_source'
         c.violate(kind, 'link %s: WNTR and EPANET report different open/closed states at report steps %s (t = %s s): WNTR %s, EPANET %s' % (
             ln, r_[:6], [times[k] for k in r_[:6]], [int(rw.link['status'][ln].values[k]) for k in r_[:6]],
             [int(re_.link['status'][ln].values[k]) for k in r_[:6]]), **wit)
@@ -342,6 +445,9 @@ def run_engines(c, rng):
             tank_slack = max(tank_slack, 0.15 * qt * o['hydraulic_timestep'] / area)
     # a head error e at a tank changes the flows of its links by about e / (dh/dq); bounded here by 3 % of the largest flow per 0.1 m
     flow_slack = min(0.05, 0.3 * tank_slack) * qmax
+    pipe_law = {p_['name']: (ref.hw_k(p_['roughness'], p_['diameter'], p_['length']), ref.minor_k(p_['minor_loss'], p_['diameter']), p_)
+                for p_ in spec['pipes']}
+    open_valve_loss = {v_['name']: (ref.minor_k(v_['minor_loss'], v_['diameter']), v_) for v_ in spec['valves']}
     skip_steps = set(k for idx in mismatch.values() for k in idx)
     if bistable:
         skip_steps.add(min(bistable))
@@ -351,6 +457,9 @@ def run_engines(c, rng):
         first_tie = limit_step
     # a power pump's head gain is P/(rho g q): WNTR uses rho g = 9810 N/m3, EPANET 62.4 lb/ft3 = 9802 N/m3 (7.7e-4 apart)
     rel_h = 1e-3 if any(p['type'] == 'POWER' for p in spec['pumps']) else 3e-4
+    hv_ = re_.node['head'].values
+    hv_ = hv_[hv_ > -1e4]
+    hspread = float(hv_.max() - hv_.min()) if hv_.size else 0.0
     worst = None
     for i, t in enumerate(times):
         if first_tie is not None and i >= first_tie:
@@ -370,7 +479,9 @@ def run_engines(c, rng):
                 a, b = float(rw.node[key][n].values[i]), float(re_.node[key][n].values[i])
                 c.count('engine_values_compared')
                 d = abs(a - b)
-                lim = tol_abs + tol_rel * abs(float(re_.node['head'][n].values[i])) + tank_slack
+                # relative to the larger of the head itself and the spread of heads in the network (the head losses the value is the
+                # result of): a node 95 m of head loss below its source at head -5 m is known to 3e-4 x 95 m, not x 5 m
+                lim = tol_abs + tol_rel * max(abs(float(re_.node['head'][n].values[i])), hspread) + tank_slack
                 if d > lim and (worst is None or d / lim > worst[0]):
                     worst = (d / lim, key, n, t, a, b)
         for n in nodes:
@@ -386,6 +497,23 @@ def run_engines(c, rng):
             lim = 1e-5 + 1e-3 * qmax + flow_slack
             if max(abs(a), abs(b)) < 4e-4:
                 lim = max(lim, 2e-4)      # inside WNTR's documented low-flow smoothing range of the Hazen-Williams law (|q| < 4e-4 m3/s)
+            if d > lim and ln in pipe_law:
+                # a hydraulically flat pipe (short, wide, little flow): its flow is only as well determined as the heads at its
+                # ends - the two engines' heads differ by dH there, which moves the flow by dH / (d headloss / dq)
+                k_, mk_, l_ = pipe_law[ln]
+                dH = abs(float(rw.node['head'][l_['start']].values[i]) - float(re_.node['head'][l_['start']].values[i])) + \
+                    abs(float(rw.node['head'][l_['end']].values[i]) - float(re_.node['head'][l_['end']].values[i])) + 2e-6
+                qm = min(abs(a), abs(b))
+                lim = lim + dH / (1.852 * k_ * qm ** 0.852 + 2 * mk_ * qm + 1e-5 * math.sqrt(k_))
+                c.count('flat_pipe_flow_comparisons')
+            if d > lim and ln in open_valve_loss and int(rw.link['status'][ln].values[i]) == 1 and int(re_.link['status'][ln].values[i]) == 1:
+                # a fully open valve is a link with (almost) no head loss: in a loop its flow is whatever the neighbouring heads
+                # leave over, i.e. as (in)determinate as those heads
+                mk_, l_ = open_valve_loss[ln]
+                dH = abs(float(rw.node['head'][l_['start']].values[i]) - float(re_.node['head'][l_['start']].values[i])) + \
+                    abs(float(rw.node['head'][l_['end']].values[i]) - float(re_.node['head'][l_['end']].values[i])) + 2e-6
+                lim = lim + dH / (2 * mk_ * min(abs(a), abs(b)) + 1e-9)
+                c.count('open_valve_flow_comparisons')
             if d > lim and (worst is None or d / lim > worst[0]):
                 worst = (d / lim, 'flowrate', ln, t, a, b)
     if worst is not None:
@@ -406,8 +534,8 @@ def run_engines(c, rng):
         iw = times.index(worst[3])
         for v in spec['valves']:
             for k in range(iw + 1):
-                if o['demand_model'] == 'PDD' and valve_forced_open(spec, rw, re_, v, k):
-                    kind = 'engines_differ_valve_forced_open_without_source_pdd'
+                if valve_forced_open(spec, rw, re_, v, k) and side_without_source(topo, links, rw, v, k):
+                    kind = 'engines_differ_valve_forced_open_without_source'
         c.violate(kind, '%s of %s at t = %s s: WNTR %.6g, EPANET %.6g (%.1f x the tolerance)' % (worst[1], worst[2], worst[3], worst[4], worst[5], worst[0]),
                   quantity=worst[1], element=worst[2], **wit)
     # Beyond the first contact with a level limit the engines are not compared value by value (limit cycles), but a tank is still
@@ -442,7 +570,15 @@ def run_engines(c, rng):
 
 
 # ------------------------------------------------------------------------------------------------
-def compare_results(c, label, ra, rb, counter, wit, rel=3e-4, ab=1e-6, starved=None, tanks=None):
+def incidence(spec):
+    inc = {}
+    for l_ in spec['pipes'] + spec['pumps'] + spec['valves']:
+        inc.setdefault(l_['start'], []).append(l_['name'])
+        inc.setdefault(l_['end'], []).append(l_['name'])
+    return inc
+
+
+def compare_results(c, label, ra, rb, counter, wit, rel=3e-4, ab=1e-6, starved=None, tanks=None, incident=None):
     """EPANET vs EPANET: tight."""
     ta, tb = [int(t) for t in ra.node['head'].index], [int(t) for t in rb.node['head'].index]
     if ta != tb:
@@ -473,7 +609,11 @@ def compare_results(c, label, ra, rb, counter, wit, rel=3e-4, ab=1e-6, starved=N
                 stop = i
                 c.count('stopped_at_tank_limit')
                 break
-    hrange = float(rb.node['head'].max().max() - rb.node['head'].min().min())      # a flow-unit constant off by 1e-4 moves heads by ~2e-4 of the head losses
+    hv_ = rb.node['head'].values
+    hv_ = hv_[hv_ > -1e4]
+    hrange = float(hv_.max() - hv_.min()) if hv_.size else 0.0
+    fixed_ = set(t_['name'] for t_ in (tanks or []))
+    junc_like = set(n_ for n_ in ra.node['head'].columns if n_ not in fixed_ and not str(n_).startswith('R'))      # a flow-unit constant off by 1e-4 moves heads by ~2e-4 of the head losses
     for grp, keys in (('node', ('head', 'pressure', 'demand')), ('link', ('flowrate', 'status'))):
         for key in keys:
             A, B = getattr(ra, grp)[key], getattr(rb, grp)[key]
@@ -485,6 +625,14 @@ def compare_results(c, label, ra, rb, counter, wit, rel=3e-4, ab=1e-6, starved=N
                 a, b = A[col].values, B[col].values
                 for i in range(min(len(a), stop)):
                     if starved is not None and grp == 'node' and key in ('head', 'pressure') and (col, i) in starved:
+                        continue
+                    if grp == 'node' and key in ('head', 'pressure') and incident is not None and col in junc_like and all(
+                            abs(float(ra.link['flowrate'][l2].values[i])) <= 1e-6 and abs(float(rb.link['flowrate'][l2].values[i])) <= 1e-6
+                            for l2 in incident.get(col, [])):
+                        c.count('floating_node_values_skipped')      # no flow on any of its links: EPANET leaves such a head where the iteration left it
+                        continue
+                    if grp == 'node' and key in ('head', 'pressure') and min(float(a[i]), float(b[i])) < -1e4:
+                        c.count('disconnected_node_values_skipped')     # EPANET's marker for a node cut off from every source (about -1e6)
                         continue
                     c.count(counter)
                     d = abs(float(a[i]) - float(b[i]))
@@ -522,6 +670,9 @@ def run_units(c, rng):
         if not epanet_clean(tr):
             c.inconclusive('epanet_warnings')
             return
+        if not epanet_balanced(spec, tr.results):
+            c.inconclusive('epanet_solution_does_not_balance')
+            return
         results[u] = tr.results
     base = 'LPS' if 'LPS' in results else sorted(results)[0]
     # under PDD a zone that is cut off from every source is not an error for EPANET: its junctions deliver nothing and their
@@ -544,7 +695,7 @@ def run_units(c, rng):
     for u, r in results.items():
         if u == base:
             continue
-        out = compare_results(c, 'inpfile_units %s vs %s' % (u, base), r, results[base], 'unit_values_compared', wit, starved=starved, tanks=spec['tanks'])
+        out = compare_results(c, 'inpfile_units %s vs %s' % (u, base), r, results[base], 'unit_values_compared', wit, starved=starved, tanks=spec['tanks'], incident=incidence(spec))
         if out is False:
             return
         if out is not True:
@@ -713,7 +864,10 @@ def run_reader(c, rng):
         if tr.exception is not None:
             c.violate('read_model_does_not_run', 'the model read from the file does not run in EPANET: %s' % str(tr.exception)[:200], **wit)
             return
-        out = compare_results(c, 'read-and-rewritten vs original text', tr.results, direct, 'reader_values_compared', wit, tanks=(spec['tanks'] if spec else None))
+        if spec is not None and not (epanet_balanced(spec, direct) and epanet_balanced(spec, tr.results)):
+            c.inconclusive('epanet_solution_does_not_balance')
+            return
+        out = compare_results(c, 'read-and-rewritten vs original text', tr.results, direct, 'reader_values_compared', wit, tanks=(spec['tanks'] if spec else None), incident=(incidence(spec) if spec else None))
         if out is False:
             return
         if out is not True:
